@@ -681,8 +681,8 @@ Section Roundtrip.
     intros ->. cbn [do_files]. fold dhn.
     rewrite hdr_block_size, hdr_bitmap_blocks, hdr_max_mapnr, hdr_sub_blocks, try_header_good.
     pose proof (wf_sub _ _ Hwf). destruct (wf_bmp _ _ Hwf).
-    destruct (N.leb_spec (2^31 - 1) (dl_sub_blocks l)); [lia |].
-    destruct (N.leb_spec (2^31) (bitmap_blocks l)); [lia |]. cbn [orb].
+    destruct (N.leb_spec (2^31) (dl_sub_blocks l)); [lia |].
+    destruct (N.leb_spec (2^31) (bitmap_blocks l)); [lia |].
     rewrite read_sub_hdr_ok, read_bitmap_ok. reflexivity.
   Qed.
 
